@@ -318,6 +318,58 @@ func init() {
 			{Name: "c16-twin", Overlay: astOv("C16/unescape.go", "C16/c16_lex.go"), Pkg: "ast", Entry: "VerifC16Lex", Twin: true,
 				Args: func(tier string, l *Loaded) [][]int64 { return [][]int64{{1, 1}} }},
 		}}
+	filesOv := func(files ...string) map[string][]string { return map[string][]string{"files": files} }
+	properties["C06"] = &PropertySpec{ID: "C06",
+		Rule:        "real RunFiles([f], mode, false) over the model file system: 14 programs (replacements longer/shorter/empty, adjacent and zero matches, captures, transforms, top/skip, find commands) x file contents of length 1..T (quick 3, thorough 5, ASCII) x symbolic mode in {NOTHING, NEW, OVERWRITE} x stale f.vored present/absent; expected text = splice of the matches the same run reported",
+		Assumptions: []string{"POSIX/io contract of the modelled os calls (Read/ReadAt/Write/Seek/Truncate/O_TRUNC/O_CREATE) — the kernel is only exercised by native replay of counterexamples", "CONFIRM mode and processFilenames=true are outside the property", "files larger than T (window arithmetic for large files is C07's lemma)"},
+		Groups: []JobGroup{
+			{Name: "c06", Overlay: libOverlay("C06/c06.go"), Pkg: "libvore", Entry: "VerifC06", PanicOK: true,
+				Args: func(tier string, l *Loaded) [][]int64 {
+					return seqArgs(countOf(l, "libvore", "VerifC06Count"), tOf(tier, 3, 5), 0)
+				}},
+			{Name: "c06-twin", Overlay: libOverlay("C06/c06.go"), Pkg: "libvore", Entry: "VerifC06", Twin: true, PanicOK: true,
+				Args: func(tier string, l *Loaded) [][]int64 { return [][]int64{{0, 1, 1}} }},
+		}}
+	properties["C07"] = &PropertySpec{ID: "C07",
+		Rule:        "(1) inductive step on the real BufferedFile.Seek/Read from an arbitrary window state satisfying the representation invariant, abstract file of symbolic size F in [1,2^40) whose byte at offset i is byte(i): Seek(off,SeekStart) for every off in [0,F], Seek(0,SeekCurrent), Read(p) with len(p) in 1..3 (thorough 4) inside the file; invariant, window-contains-offset, buffer content (Skolem position) and returned bytes asserted; (2) NewBufferedFile establishes the invariant for every F in [0,2^40); files.Reader Seek+Read / ReadAt over BufferedFile return file[off:off+n] or \"\" (n <= 3), plus a backward read; (3) whole pipeline RunFiles vs Run on the same bytes for 19 programs x contents of length 0..T (quick 3, thorough 5; ASCII and all bytes)",
+		Assumptions: []string{"the kernel implements pread/read as documented (stub contract)", "file content function byte(i): a wrong offset that differs by a multiple of 256 is not visible in the data (it is visible in the offset assertions)", "reads longer than 4 bytes in one call are covered through the per-iteration argument"},
+		Groups: []JobGroup{
+			{Name: "c07-step", Overlay: filesOv("C07/c07_step.go"), Pkg: "files", Entry: "VerifC07Step",
+				Args: func(tier string, l *Loaded) [][]int64 {
+					k := tOf(tier, 3, 4)
+					return [][]int64{{0, k, 0}, {1, k, 0}, {2, k, 0}}
+				}},
+			{Name: "c07-new", Overlay: filesOv("C07/c07_step.go"), Pkg: "files", Entry: "VerifC07New",
+				Args: func(tier string, l *Loaded) [][]int64 { return [][]int64{{}} }},
+			{Name: "c07-reader", Overlay: filesOv("C07/c07_step.go"), Pkg: "files", Entry: "VerifC07Reader",
+				Args: func(tier string, l *Loaded) [][]int64 { return [][]int64{{0, 3}, {1, 3}} }},
+			{Name: "c07-run", Overlay: libOverlay("C06/c06.go"), Pkg: "libvore", Entry: "VerifC07Run", PanicOK: false,
+				Args: func(tier string, l *Loaded) [][]int64 {
+					out := seqArgs(countOf(l, "libvore", "VerifC07RunCount"), tOf(tier, 3, 5), 1, 0)
+					return append(out, seqArgs(countOf(l, "libvore", "VerifC07RunCount"), tOf(tier, 2, 3), 0, 0)...)
+				}},
+			{Name: "c07-twin", Overlay: filesOv("C07/c07_step.go"), Pkg: "files", Entry: "VerifC07Step", Twin: true,
+				Args: func(tier string, l *Loaded) [][]int64 { return [][]int64{{0, 1, 1}} }},
+		}}
+	properties["C20"] = &PropertySpec{ID: "C20",
+		Rule:        "(1) real pathMatches vs the recursive definition of '*': patterns of length 0..4 (thorough 5) and names of length 0..5 (thorough 6) over all printable ASCII except '/', every byte symbolic; (2) real ParsePath(p).GetFileList(\".\") over the model file system: trees of depth <= 2 with up to 2 entries per directory, symbolic 1-byte names over {a,b}, symbolic is-directory bits, patterns of 1..2 segments of 1..2 bytes over {a,b,*}; result compared as a set, no duplicates, no directories",
+		Assumptions: []string{"directory segments made only of stars and ./.. segments are excluded (as the property states)", "absolute patterns are not explored (the model tree is relative to the working directory)", "ReadDir failing is modelled as the code treats it (empty)"},
+		Groups: []JobGroup{
+			{Name: "c20-seg", Overlay: filesOv("C20/c20.go"), Pkg: "files", Entry: "VerifC20Seg",
+				Args: func(tier string, l *Loaded) [][]int64 {
+					var out [][]int64
+					for p := int64(0); p <= tOf(tier, 4, 5); p++ {
+						for t := int64(0); t <= tOf(tier, 5, 6); t++ {
+							out = append(out, []int64{p, t, 0})
+						}
+					}
+					return out
+				}},
+			{Name: "c20-tree", Overlay: filesOv("C20/c20.go", "C20/c20_tree.go"), Pkg: "files", Entry: "VerifC20Tree",
+				Args: func(tier string, l *Loaded) [][]int64 { return [][]int64{{1, 0}, {2, 0}} }},
+			{Name: "c20-twin", Overlay: filesOv("C20/c20.go"), Pkg: "files", Entry: "VerifC20Seg", Twin: true,
+				Args: func(tier string, l *Loaded) [][]int64 { return [][]int64{{1, 1, 1}} }},
+		}}
 	properties["T00"] = &PropertySpec{ID: "T00", Groups: []JobGroup{{
 		Name: "toy2", Overlay: map[string][]string{"libvore": {"toy/toy2.go"}}, Pkg: "libvore", Entry: "VerifToy2",
 		Args: func(tier string, l *Loaded) [][]int64 { return [][]int64{{2}, {3}} },
